@@ -30,7 +30,13 @@ AddAssertionEnvSalted(e, a, id) ==
   IF ~AssertionLike(a) THEN Err("InvalidFormat") ELSE AddAssertionEnv(e, AddSaltInstance(a, id))
 
 (* ---- signatures (signature_impl.rs) ----------------------------------------*)
-SigLeaf(id, signer, D) == Leaf(<<"sig", id[1], id[2], signer, D>>)
+(* Ed25519, ECDSA (RFC 6979) and the SSH variants sign deterministically, Schnorr (BIP-340 with fresh
+   auxiliary randomness) and ML-DSA do not: signer s1 stands for the first kind, every other signer
+   for the second (the harness picks the schemes accordingly).  A deterministic signature is a
+   function of key and message, so it carries no call identity. *)
+DetSigner(s) == s = "s1"
+SigLeaf(id, signer, D) == Leaf(<<"sig", IF DetSigner(signer) THEN 0 ELSE id[1],
+                                        IF DetSigner(signer) THEN 0 ELSE id[2], signer, D>>)
 IsSigLeaf(e) == IsLeaf(e) /\ e[2][1] = "sig"
 SigVerifies(e, key, D) == IsSigLeaf(e) /\ e[2][4] = key /\ e[2][5] = D
 
